@@ -206,7 +206,7 @@ func calQueryDoc(r *RNG, q *caldav.CalendarQuery, mut string) *wEl {
 	}
 	switch mut {
 	case "bad-negate":
-		cf.Add(E(nsCal, "prop-filter", E(nsCal, "text-match").T("x").A("negate-condition", "true")).A("name", "SUMMARY"))
+		cf.Add(E(nsCal, "prop-filter", E(nsCal, "text-match").T("x").A("negate-condition", badValue("negate"))).A("name", "SUMMARY"))
 	case "bad-date":
 		cf.Add(E(nsCal, "comp-filter", E(nsCal, "time-range").A("start", "2024-01-01T00:00:00Z")).A("name", "VEVENT"))
 	case "bad-date-2":
